@@ -19,10 +19,9 @@ def sgnS (t : IntTy) : String := if t.signed then "s" else "u"
 def c06Class (path : Path) (kind : String) (op : String) (L R : IntTy) (l r : Int) : String :=
   let mixed := L.signed != R.signed
   if kind == "bin" || kind == "wbin" then
-    if op == "shl" then
-      (if l == 0 && r ≥ (promote L).bits then "C06.shl_zero_by_wide_count"
-       else if l == -1 && r == ((promote L).digits : Int) then "C06.shl_minus_one_to_lowest" else "")
-    else if op == "shr" then (if r ≥ (promote L).bits then "C06.shr_count_ge_width" else "")
+    -- (the shift classes shl_zero_by_wide_count, shl_minus_one_to_lowest, shr_count_ge_width are
+    -- repaired: a recurrence is a violation)
+    if op == "shl" || op == "shr" then ""
     else if op == "div" then (if mixed then "C06.div_mixed_signedness" else "")
     else if mixed && path == .portable then "C06.portable_mixed_signedness"
     else ""
@@ -71,12 +70,11 @@ def c06Eval (toks : List String) : Option C06Case :=
         else if q < (D.lowest : Rat) then some (c06Want tag D (D.lowest - 1))
         else some (c06Want tag D t)
       | none => none
-    -- the limit itself rounds up when converted to the source format: values in [max+1, float(max)] are not flagged
-    let cls := match x.toRat? with
-      | some q =>
-                  if (q > (D.max : Rat) && !fCmp .gt x (f.ofInt D.max)) || (q < (D.lowest : Rat) && !fCmp .lt x (f.ofInt D.lowest)) then "C06.float_at_limit_not_flagged" else ""
-      | none => ""
-    some { model := checkedConvertFloat tag f D x, want := want, cls := cls, branch := s!"cvtf/{tag.toString}/{fm}" }
+    -- (float_at_limit_not_flagged is repaired: no class; a recurrence is a violation)
+    let ovf := match x.toRat? with
+      | some q => if q > (D.max : Rat) then "/pos" else if q < (D.lowest : Rat) then "/neg" else ""
+      | none => "/na"
+    some { model := checkedConvertFloat tag f D x, want := want, cls := "", branch := s!"cvtf/{tag.toString}/{fm}{ovf}" }
   | _ => none
 
 def isWrapped (toks : List String) : Bool := toks.head? == some "wbin"
